@@ -380,7 +380,19 @@ def run_attributes(spec, res):
                             edits.append('fixed-removed')
                 if dw != bw:
                     edits.append('wildcard-changed')
-                primary = [x for x in sorted(set(edits)) if x != 'wildcard-changed'] or sorted(set(edits))
+                import re as _re
+                wnames = set(_re.findall(r' ([a-z]+)="', found))
+                primary = None
+                for nm in sorted(wnames):
+                    if nm in d and d[nm][0] == 'prohibited' and nm in b:
+                        primary = ['optional-to-prohibited']
+                        break
+                if primary is None and any(nm in d and nm not in b for nm in wnames):
+                    primary = ['added-attribute']
+                if primary is None and any(nm in d and nm in b and d[nm][1] != b[nm][1] for nm in wnames):
+                    primary = ['type-changed']
+                if primary is None:
+                    primary = [x for x in sorted(set(edits)) if x != 'wildcard-changed'] or sorted(set(edits))
                 res.violation(f'attributes:{version}:{"+".join(primary) or "unchanged"}',
                               {'schema': text, 'attrs': found, 'version': version},
                               f'{version}: restriction accepted; attribute set{found} valid for derived only; base {b} {bw} derived {d} {dw}')
